@@ -70,7 +70,28 @@ def load_known():
         return json.load(f)
 
 
-def decide(pid, results, tier, t0, level="other", extra_assumptions=None, design_ref=None, controls=None):
+def caller_aliases(P, fd):
+    """keys under which a finding may have been recorded before its code was moved into a helper: the same rule, file
+    and anchor with the function replaced by the (transitively) *only* caller of the static function it is now in.
+    A recorded finding keeps its identity when a maintainer extracts the block that contains it."""
+    out = []
+    try:
+        callers = P.callers()
+        f = P.func(fd.func, fd.file)
+        seen = set()
+        while f is not None and f.static and f.key() not in seen:
+            seen.add(f.key())
+            cs = {g.key(): g for (g, _) in callers.get(f.key(), []) if g.file == f.file}
+            if len(cs) != 1:
+                break
+            f = list(cs.values())[0]
+            out.append("%s|%s|%s|%s" % (fd.rule, fd.file, f.name, fd.anchor))
+    except Exception:
+        pass
+    return out
+
+
+def decide(pid, results, tier, t0, level="other", extra_assumptions=None, design_ref=None, controls=None, P=None):
     """Compare findings with known findings, print lines, write evidence, return exit status."""
     known = load_known()
     known_keys = {}
@@ -89,6 +110,9 @@ def decide(pid, results, tier, t0, level="other", extra_assumptions=None, design
                 continue
             seen.add(fd.key)
             if fd.key in known_keys:
+                known_hit.append(fd)
+            elif P is not None and any(k in known_keys for k in caller_aliases(P, fd)):
+                seen.update(k for k in caller_aliases(P, fd) if k in known_keys)
                 known_hit.append(fd)
             else:
                 violations.append(fd)
